@@ -14,8 +14,8 @@ vars == <<kind, p, cs, calls, fired, dates>>
 
 Init ==
   /\ kind \in {"RunOnce", "RunAfterDays", "RunEveryNPeriods"}
-  /\ p \in [n : 1..MaxN, offset : 0..(MaxN - 1), days : 0..MaxN]
-  /\ p.offset < p.n
+  \* (the offset may exceed the period: the first firing is then later than one period)
+  /\ p \in [n : 1..MaxN, offset : 0..(2 * MaxN + 1), days : 0..MaxN]
   /\ cs = InitCount(kind, p)
   /\ calls = 0 /\ fired = <<>> /\ dates = <<>>
 
